@@ -48,7 +48,7 @@ var mdiAtoms = map[string][]mdiSpell{
 	"a1": {{"<http://ex.am/p1>", "http://ex.am/p1"}, {"<https://w3.io/a?b=1>", "https://w3.io/a?b=1"}, {"<mailto:me@ex.am>", "mailto:me@ex.am"}},
 	"a2": mdiSame("http://ex.am/p2", "www.ex.am", "https://w3.io/q"),
 	"m1": mdiSame("**", "<i>", "&lt;"),
-	"m2": mdiSame("~~", "</b>", "&amp;"),
+	"m2": mdiSame("__", "</b>", "&amp;"),
 }
 
 var mdiAtomOrder []string
